@@ -88,6 +88,11 @@ def run_case(case, seed):
                 last = (idx, e, a[idx])
         if bad:
             r.fail(K('element', 'value'), '%d wrong elements, e.g. %s' % (bad, last))
+        # NumPy integers are documented index types
+        for npt in (np.int64, np.int32):
+            for idx in (tuple(s - 1 for s in a.shape), tuple(0 for s in a.shape)):
+                e = A.element([npt(i) for i in idx])
+                r.true(K('element', 'numpy-int-index'), abs(e - a[idx]) <= TOL * max(1.0, abs(a[idx])), '%s indices %s' % (npt.__name__, idx))
     r.true(K('isoperator', 'value'), A.isoperator() == (not (all(x == 1 for x in rows) or all(x == 1 for x in cols))))
 
     # sum / difference
